@@ -442,6 +442,12 @@ impl BlockData {
             transactions.append(&mut txs);
         }
 
+        // the parent must be in an earlier slot
+        if parent.0 >= slot {
+            warn!("parent in slot {} is not before slot {slot}", parent.0);
+            return ReconstructBlockResult::Error;
+        }
+
         let block = Block {
             _slot: slot,
             hash: block_hash.clone(),
